@@ -187,7 +187,31 @@ def run(ctx: Ctx, tier: str) -> Result:
         res.fail(Finding("C05.BUDGET", cv.qname, size_t, cv.loc(), "the budget counts `%s`, not the number of cached variables" % size_t))
     gate = [c for c in t.calls_in(sf) if cv in t.resolve_call(c, sf).repo]
     recs = [c for c in t.calls_in(sf) if any(x.qname == VP + ".process_variable" for x in t.resolve_call(c, sf).repo)]
-    need(len(recs) == 1, "search_function: process_variable call not found")
+    if len(recs) != 1 or paths.enclosing_loops(p, recs[0], sf):
+        res.fail(Finding("C05.QUEUE", sf.qname, recs[1] if len(recs) > 1 else (recs[0] if recs else "<process_variable(node)>"),
+                         sf.loc(recs[1]) if len(recs) > 1 else sf.loc(),
+                         "the search consumer records %d variables per visited node (or records in a loop): values are recorded when "
+                         "their parent is visited instead of in queue order, so deeper variables are recorded before the remaining "
+                         "shallower ones" % len(recs)))
+        return res
+    rec_arg = ctx.expand.expand(recs[0].args[1], sf) if len(recs[0].args) > 1 else []
+    if rec_arg == ["%s._value" % P(sf, 1)]:
+        res.ok("C05.QUEUE", {"consumer records exactly the visited node": rec_arg[0]})
+    else:
+        res.fail(Finding("C05.QUEUE", sf.qname, recs[0], sf.loc(recs[0]), "the search consumer records `%s`, not the value of the node it was handed" % rec_arg))
+    addc = [c for c in t.calls_in(sf) if any(x.qname == BFS + ".Node.add_children" for x in t.resolve_call(c, sf).repo)]
+    pcn = [c for c in t.calls_in(sf) if pc in t.resolve_call(c, sf).repo]
+    ok_add = False
+    if len(addc) == 1 and len(pcn) == 1 and addc[0].args:
+        a_txt = ctx.expand.expand_nodes(addc[0].args[0], sf)
+        same_conds = [norm(c) for c, pol in paths.conditions(p, addc[0], sf)] == [norm(c) for c, pol in paths.conditions(p, pcn[0], sf)]
+        ok_add = len(a_txt) == 1 and isinstance(a_txt[0], ast.Call) and "process_child_nodes" in norm(a_txt[0].func) and same_conds \
+            and norm(addc[0].func.value) == sf.params[1]
+    if ok_add:
+        res.ok("C05.QUEUE", {"all children queued on the visited node": norm(addc[0])})
+    else:
+        res.fail(Finding("C05.QUEUE", sf.qname, addc[0] if addc else "<node.add_children(children)>", sf.loc(),
+                         "the children found for a node are not all handed to node.add_children (some are recorded or dropped outside the queue)"))
     conds = paths.conditions(p, recs[0], sf)
     okg = False
     for test, pol in conds:
